@@ -64,6 +64,13 @@ func oracleLoop(c *Case, idx int, out *childOut) {
 			streak = 0
 		}
 		if streak == 0 {
+			// attempt i-1 was an established connection: "waits ... reset after a successful connection" - whatever
+			// ended it, the next attempt comes with at most the reset wait
+			if t.End[i-1] >= 0 && !t.Lagged[i] {
+				if gapES := t.Start[i] - t.End[i-1]; gapES > c.Min+c.Min*6/10+150*ms {
+					bad("wait-not-reset-after-success", fmt.Sprintf("attempt %d follows the established connection %d (%s), yet it came only %s after that connection ended (minimum %s)", i, i-1, what(i-1), fmtDur(gapES), fmtDur(c.Min)))
+				}
+			}
 			continue
 		}
 		gapSS := t.Start[i] - t.Start[i-1]
@@ -121,7 +128,7 @@ func oracleLoop(c *Case, idx int, out *childOut) {
 				break
 			}
 		}
-		if c.Obs[i].Est && i != c.Cancel.I && i < len(c.Sched) && len(t.InSeq[i]) != c.Sched[i].K {
+		if c.Obs[i].Est && i != c.Cancel.I && i < len(c.Sched) && c.Sched[i].W != "acceptdropw" && len(t.InSeq[i]) != c.Sched[i].K {
 			bad("message-lost-while-connected", fmt.Sprintf("connection %d: the server sent %d messages and was acknowledged, r.In delivered %d", i, c.Sched[i].K, len(t.InSeq[i])))
 		}
 	}
